@@ -219,4 +219,207 @@ theorem quote_roundtrip (q : Char) (hq : IsQ q) (s : Str) (triple : Bool) :
 example : quote1 '"' "a\"b\\c\nd%'".toList = "\"a\\\"b\\\\c\\nd%'\"".toList := by decide
 example : unquoteStr true (quote1 '\'' "it's 100% [x]; #=\t\r".toList) = .ok "it's 100% [x]; #=\t\r".toList := by decide
 
+/-! ## Triple-quoted form -/
+
+theorem hasTripleQ_cons_ne (q c : Char) (X : Str) (h : c ≠ q) : hasTripleQ q (c :: X) = hasTripleQ q X := by
+  rw [hasTripleQ.eq_def]; simp [h]
+
+theorem hasTripleQ_q_cons (q : Char) (X : Str) (h : X.head? ≠ some q) :
+    hasTripleQ q (q :: X) = hasTripleQ q X := by
+  rw [hasTripleQ.eq_def]
+  cases X with
+  | nil => simp
+  | cons b r =>
+    have hb : b ≠ q := by simpa using h
+    cases r <;> simp [hb]
+
+theorem head_flatMap_escChar (q : Char) (hq : IsQ q) (s t : Str) (ht : t.head? ≠ some q) :
+    (s.flatMap (escChar q) ++ t).head? ≠ some q := by
+  cases s with
+  | nil => simpa using ht
+  | cons c s =>
+    simp only [List.flatMap_cons, List.append_assoc]
+    rcases escChar_spec q c hq with ⟨h, -, h2, -, -⟩ | ⟨h, rfl⟩ | ⟨h, rfl⟩ | ⟨h, rfl⟩ | ⟨h, rfl⟩
+    · rw [h]; simp; exact h2
+    all_goals (rw [h]; rcases hq with rfl | rfl <;> simp)
+
+/-- an escaped body never contains three quote characters in a row, whatever quote-free text follows -/
+theorem hasTripleQ_flatMap (q : Char) (hq : IsQ q) (s t : Str) (ht : ∀ x ∈ t, x ≠ q) :
+    hasTripleQ q (s.flatMap (escChar q) ++ t) = false := by
+  have hbs : ('\\' : Char) ≠ q := by rcases hq with rfl | rfl <;> decide
+  induction s with
+  | nil =>
+    simp only [List.flatMap_nil, List.nil_append]
+    induction t with
+    | nil => rfl
+    | cons x t iht =>
+      rw [hasTripleQ_cons_ne q x t (ht x (by simp))]
+      exact iht (fun y hy => ht y (by simp [hy]))
+  | cons c s ih =>
+    have hhead : (s.flatMap (escChar q) ++ t).head? ≠ some q :=
+      head_flatMap_escChar q hq s t (by
+        cases t with
+        | nil => simp
+        | cons x t => simpa using ht x (by simp))
+    simp only [List.flatMap_cons, List.append_assoc]
+    rcases escChar_spec q c hq with ⟨h, -, h2, -, -⟩ | ⟨h, rfl⟩ | ⟨h, rfl⟩ | ⟨h, rfl⟩ | ⟨h, rfl⟩
+    · rw [h]; simp only [List.cons_append, List.nil_append]
+      rw [hasTripleQ_cons_ne q c _ h2]; exact ih
+    · rw [h]; simp only [List.cons_append, List.nil_append]
+      rw [hasTripleQ_cons_ne q _ _ hbs, hasTripleQ_cons_ne q _ _ hbs]; exact ih
+    · rw [h]; simp only [List.cons_append, List.nil_append]
+      rw [hasTripleQ_cons_ne q _ _ hbs, hasTripleQ_q_cons q _ hhead]; exact ih
+    · rw [h]; simp only [List.cons_append, List.nil_append]
+      rw [hasTripleQ_cons_ne q _ _ hbs, hasTripleQ_cons_ne q 'r' _ (by rcases hq with rfl | rfl <;> decide)]
+      exact ih
+    · rw [h]; simp only [List.cons_append, List.nil_append]
+      have h0 : ('0' : Char) ≠ q := by rcases hq with rfl | rfl <;> decide
+      have hx : ('x' : Char) ≠ q := by rcases hq with rfl | rfl <;> decide
+      rw [hasTripleQ_cons_ne q _ _ hbs, hasTripleQ_cons_ne q _ _ hx, hasTripleQ_cons_ne q _ _ h0,
+        hasTripleQ_cons_ne q _ _ h0]
+      exact ih
+
+theorem tripleInner_flatMap (q : Char) (hq : IsQ q) (s : Str) (hs : s ≠ []) :
+    tripleInner q (s.flatMap (escChar q)) = true := by
+  obtain ⟨s', c, rfl⟩ : ∃ s' c, s = s' ++ [c] := ⟨s.dropLast, s.getLast hs, (List.dropLast_append_getLast hs).symm⟩
+  have hbs : ('\\' : Char) ≠ q := by rcases hq with rfl | rfl <;> decide
+  have h0 := hasTripleQ_flatMap q hq s' [] (by simp)
+  simp only [List.append_nil] at h0
+  simp only [List.flatMap_append, List.flatMap_cons, List.flatMap_nil, List.append_nil]
+  unfold tripleInner
+  rcases escChar_spec q c hq with ⟨h, h1, h2, -, -⟩ | ⟨h, rfl⟩ | ⟨h, rfl⟩ | ⟨h, rfl⟩ | ⟨h, rfl⟩
+  · rw [h]; simp [h1, h2, h0]
+  · rw [h]; simp [h0]
+  · rw [h]; simp [h0]
+  · rw [h]; simp [h0]
+  · rw [h]
+    have h1 := hasTripleQ_flatMap q hq s' ['\\', 'x', '0'] (by
+      intro x hx; simp at hx; rcases hq with rfl | rfl <;> rcases hx with rfl | rfl | rfl <;> decide)
+    have h0q : ('0' : Char) ≠ q := by rcases hq with rfl | rfl <;> decide
+    simp [h1, h0q]
+
+theorem stripTriple_quote3 (q : Char) (s : Str) : stripTriple q (quote3 q s) = some (s.flatMap (escChar q)) := by
+  simp [quote3, stripTriple]
+
+theorem dropFinalNl_quote3 (q : Char) (hq : IsQ q) (s : Str) : dropFinalNl (quote3 q s) = quote3 q s := by
+  have hq' : q ≠ '\n' := by rcases hq with rfl | rfl <;> decide
+  unfold dropFinalNl quote3
+  simp only [List.reverse_cons, List.reverse_append, List.reverse_nil, List.nil_append, List.cons_append,
+    List.append_assoc]
+  split
+  · next r heq => simp at heq; exact absurd heq.1 hq'
+  · rfl
+
+theorem matchTriple_quote3 (q : Char) (hq : IsQ q) (s : Str) (hs : s ≠ []) :
+    matchTriple q (quote3 q s) = true := by
+  simp [matchTriple, dropFinalNl_quote3 q hq s, stripTriple_quote3, tripleInner_flatMap q hq s hs]
+
+theorem isQuoted_quote3 (q : Char) (hq : IsQ q) (s : Str) (hs : s ≠ []) : isQuoted true (quote3 q s) = true := by
+  rcases hq with rfl | rfl
+  · simp [isQuoted, matchTriple_quote3 '"' (Or.inl rfl) s hs]
+  · simp [isQuoted, matchTriple_quote3 '\'' (Or.inr rfl) s hs]
+
+theorem scanTriple_plain (q c : Char) (rest : Str) (h1 : c ≠ '\\') (h2 : c ≠ q) :
+    scanTriple q (c :: rest) = (scanTriple q rest).map fun p => (c :: p.1, p.2) := by
+  rw [scanTriple.eq_def]; simp [h1, h2]
+
+theorem scanTriple_pair (q d : Char) (rest : Str) :
+    scanTriple q ('\\' :: d :: rest) = (scanTriple q rest).map fun p => ('\\' :: d :: p.1, p.2) := by
+  rw [scanTriple.eq_def]; simp
+
+theorem scanTriple_quote (q : Char) (hq : IsQ q) (s tail : Str) :
+    scanTriple q (s.flatMap (escChar q) ++ q :: q :: q :: tail) = some (s.flatMap (escChar q), tail) := by
+  induction s with
+  | nil => rcases hq with rfl | rfl <;> (rw [scanTriple.eq_def]; simp)
+  | cons c s ih =>
+    simp only [List.flatMap_cons, List.append_assoc]
+    rcases escChar_spec q c hq with ⟨h, h1, h2, -, -⟩ | ⟨h, rfl⟩ | ⟨h, rfl⟩ | ⟨h, rfl⟩ | ⟨h, rfl⟩
+    · rw [h]; simp [scanTriple_plain q c _ h1 h2, ih]
+    all_goals (rw [h]; rcases hq with rfl | rfl <;>
+      simp [scanTriple_pair, scanTriple_plain, ih])
+
+theorem scanLiteral_quote3 (q : Char) (hq : IsQ q) (s : Str) :
+    scanLiteral (quote3 q s) = some (s.flatMap (escChar q), []) := by
+  have hqc : isQuoteChar q = true := by rcases hq with rfl | rfl <;> decide
+  unfold quote3
+  rw [scanLiteral.eq_def]
+  simp [hqc, scanTriple_quote q hq s []]
+
+theorem pyEval_quote3 (q : Char) (hq : IsQ q) (s : Str) : pyEval (quote3 q s) = .ok s :=
+  pyEval_of_scan (quote3 q s) _ s q _ hq rfl (mem_quote3 q hq s) (scanLiteral_quote3 q hq s)
+    (decodeEsc_flatMap (escChar q) (decodeEsc_escChar q · hq) s)
+
+/-
+Full-strength statement (false of the current code):
+  ∀ q s, isQuoted true (quote3 q s) = true ∧ unquoteStr true (quote3 q s) = .ok s
+It fails exactly at `s = []`: `_TRIPLE_QUOTED_STR_REGEX` demands one character (or escape pair) before the
+closing delimiter, so `""""""` / `` are not recognised (`quote3_empty_counterexample`).
+-/
+
+/-- **Config.quote_roundtrip**, triple forms: every non-empty string, both quote characters. -/
+theorem quote3_roundtrip_partial (q : Char) (hq : IsQ q) (s : Str) (hs : s ≠ []) :
+    isQuoted true (quote3 q s) = true ∧ unquoteStr true (quote3 q s) = .ok s := by
+  refine ⟨isQuoted_quote3 q hq s hs, ?_⟩
+  simp [unquoteStr, isQuoted_quote3 q hq s hs, pyEval_quote3 q hq s]
+
+/-- the empty string written `""""""` is not recognised as quoted and is returned with its six quotes -/
+theorem quote3_empty_counterexample :
+    isQuoted true (quote3 '"' []) = false ∧ unquoteStr true (quote3 '"' []) = .ok """""""".toList ∧
+    isQuoted true (quote3 ''' []) = false := by decide
+
+/-- Python itself evaluates it to the empty string: the loss is in the recogniser only -/
+theorem quote3_empty_python : pyEval (quote3 '"' []) = .ok [] ∧ pyEval (quote3 ''' []) = .ok [] := by decide
+
+/-- without `triple`, a triple-quoted text is never evaluated -/
+example : isQuoted false (quote3 '"' "ab".toList) = false := by decide
+example : unquoteStr true (quote3 '"' "a
+b """ c\".toList) = .ok "a
+b """ c\".toList := by decide
+
+/-- **Config.unquoted_passthrough**: a text that is not recognised as quoted is returned unchanged -/
+theorem unquoted_passthrough (triple : Bool) (text : Str) (h : isQuoted triple text = false) :
+    unquoteStr triple text = .ok text := by
+  simp [unquoteStr, h]
+
+/-- a text that does not start with a quote character is never "quoted" -/
+theorem not_quoted_of_head (triple : Bool) (text : Str) (h : ∀ c, text.head? = some c → isQuoteChar c = false) :
+    isQuoted triple text = false := by
+  cases text with
+  | nil => cases triple <;> decide
+  | cons c rest =>
+    have hc := h c rfl
+    have h1 : c ≠ '"' := fun e => by simp [e, isQuoteChar] at hc
+    have h2 : c ≠ ''' := fun e => by simp [e, isQuoteChar] at hc
+    have hs : ∀ q, c ≠ q → stripTriple q (dropFinalNl (c :: rest)) = none := by
+      intro q hcq
+      have : ∃ r, dropFinalNl (c :: rest) = c :: r := by
+        unfold dropFinalNl
+        split
+        · next r heq =>
+          cases hr : r.reverse with
+          | nil =>
+            have : r = [] := by simpa using hr
+            subst this; simp at heq
+            obtain ⟨rfl, rfl⟩ := heq
+            -- text = ["
+"]: dropping it leaves nothing; handled below
+            exact absurd rfl (by simp [isQuoteChar] at hc)
+          | cons x xs =>
+            have h3 : (c :: rest) = (r.reverse ++ ['
+']) := by
+              have := congrArg List.reverse heq; simpa using this
+            rw [hr] at h3; simp at h3
+            exact ⟨xs, by rw [h3.1]⟩
+        · exact ⟨rest, rfl⟩
+      obtain ⟨r, hr⟩ := this
+      rw [hr]
+      match r with
+      | [] => simp [stripTriple]
+      | [_] => simp [stripTriple]
+      | _ :: _ :: _ => simp [stripTriple, hcq]
+    simp [isQuoted, matchSingle, matchTriple, h1, h2, hs '"' h1, hs ''' h2]
+
+example : unquoteStr true "plain text".toList = .ok "plain text".toList := by decide
+example : unquoteStr true ""a\"".toList = .ok ""a\"".toList := by decide   -- closing quote is escaped: not quoted
+
 end Config
